@@ -5,6 +5,7 @@ import Verif.Model.AcmeSans
   One case per line, `key=value` fields separated by single spaces (unknown keys, e.g. `case=`, are ignored):
     kind=fin ids=<id,…> fps=<str,…> cfp=<str|!> cn=<str> cnip=<bytes> dns=<str,…> ips=<bytes,…> em=<n> uri=<n>
     kind=val ids=<id,…>
+    kind=ord ids=<id,…> en=<letters h d t a: enabled challenge types>
   id = `<t>:<value>:<ParseIP(value) bytes>:<sanitize ok 0|1>` with t in d,i,p,u,w,o
   (dns, ip, permanent-identifier, wireapp-user, wireapp-device, anything else);
   a string / byte string is `x<hex>`, a list is joined by ',' and `-` when empty.
@@ -13,6 +14,8 @@ import Verif.Model.AcmeSans
          S = ok:<san,…> | badcsr | ise | unmodelled | crash      san = d~<str> | i~<16 bytes> | p~<str>
          F = accept:<leaf|attested>:<cn>:<san,…> | badcsr | unauthorized | ise | unmodelled | crash
     val: ok | malformed | unmodelled
+    ord: malformed | unmodelled | created:<index of the first identifier with the same authorization,…>:<az|az|…>
+         az = <t>~<authorization value>~<wildcard 0|1>~<challenge letters>
 -/
 open Verif Verif.AcmeSans
 
@@ -67,6 +70,26 @@ def finOutS : M FinOut → String
   | .val .ise => "ise"
   | .val .unmodelled => "unmodelled"
 
+def chalS : ChalType → String
+  | .http01 => "h" | .dns01 => "d" | .tlsalpn01 => "t" | .deviceAttest01 => "a"
+
+def typS : IdType → String
+  | .dns => "d" | .ip => "i" | .pid => "p" | .wireUser => "u" | .wireDevice => "w" | .other => "o"
+
+def azS (a : AuthzSpec) : String :=
+  typS a.typ ++ "~" ++ xs a.value ++ "~" ++ (if a.wildcard then "1" else "0") ++ "~" ++ String.join (a.chals.map chalS)
+
+def evalOrd (ids : List Identifier) (en : String) : String :=
+  match validate ids with
+  | .malformed => "malformed"
+  | .unmodelled => "unmodelled"
+  | .ok =>
+    let enabled := en.toList.filterMap fun c =>
+      if c = 'h' then some ChalType.http01 else if c = 'd' then some .dns01
+      else if c = 't' then some .tlsalpn01 else if c = 'a' then some .deviceAttest01 else none
+    let azs := newOrderAuthzs enabled ids
+    "created:" ++ ".".intercalate ((List.range azs.length).map toString) ++ ":" ++ "|".intercalate (azs.map azS)
+
 def eval (line : String) : Option String := do
   let kv := (fields line).filterMap fun f =>
     match f.splitOn "=" with
@@ -75,6 +98,7 @@ def eval (line : String) : Option String := do
   let kind ← lookup kv "kind"
   let ids ← list? id? (← lookup kv "ids")
   match kind with
+  | "ord" => pure (evalOrd ids (← lookup kv "en"))
   | "val" =>
     pure (match validate ids with
       | .ok => "ok" | .malformed => "malformed" | .unmodelled => "unmodelled")
